@@ -19,7 +19,14 @@ def main():
     wt = os.path.join(root, f'seedchk-{name}-{os.getpid()}')
     out = {'seed': name, 'checked_at': time.strftime('%Y-%m-%dT%H:%M:%S')}
     try:
-        subprocess.run(['git', '-C', '/repo', 'worktree', 'add', '--detach', '-f', wt, 'HEAD'], check=True, capture_output=True)
+        for attempt in range(6):
+            # (several of these may run side by side: git serialises worktree changes with a lock file)
+            r0 = subprocess.run(['git', '-C', '/repo', 'worktree', 'add', '--detach', '-f', wt, 'HEAD'], capture_output=True)
+            if r0.returncode == 0:
+                break
+            time.sleep(1 + attempt)
+        else:
+            r0.check_returncode()
         env = dict(os.environ, PYTHONPATH=os.path.join(wt, 'src'))
         shutil.copy(os.path.join(sd, 'demo.py'), os.path.join(wt, 'seed_demo.py'))
         r = subprocess.run([PY, 'seed_demo.py'], cwd=wt, env=env, capture_output=True, text=True, timeout=120)
